@@ -313,6 +313,45 @@ func TestCheck(t *testing.T) {
 		})
 	})
 
+	// Phase A5: probes whose year is an alias of a year inside (or just outside) the interval modulo 2^8, 2^16, 2^24 or 2^31-ish:
+	// a filter that keeps or compares years in a narrower type takes them for the year they alias.
+	r.Phase("A5: intervals of 0-40 years probed with dates whose year differs from an inside / outside year by a multiple of 256, 65536, 2^24, 2^31", func() {
+		bounds := [][2]YMD{{{2000, 3, 15}, {2010, 3, 15}}, {{2000, 3, 15}, {2000, 9, 1}}, {{1999, 12, 31}, {2001, 1, 1}}, {{-5, 6, 1}, {30, 6, 1}}, {{9990, 1, 1}, {9999, 12, 31}}, {{2024, 2, 29}, {2024, 2, 29}}, {{100, 1, 1}, {140, 12, 31}}, {{65530, 1, 1}, {65540, 1, 1}}, {{-32770, 5, 5}, {-32760, 5, 5}}}
+		shifts := []int64{0, 256, -256, 512, 65536, -65536, 131072, 3 * 65536, 1 << 24, -(1 << 24), 1 << 31, -(1 << 31), 1<<31 - 65536, 1<<32 - 65536}
+		r.Parallel(int64(len(bounds)), 1, func(w *vkit.W, lo, hi int64) {
+			for bi := lo; bi < hi; bi++ {
+				f, t := bounds[bi][0], bounds[bi][1]
+				var probes []YMD
+				for _, base := range []YMD{f, t, {f.Y, 7, 1}, {(f.Y + t.Y) / 2, 7, 1}, {t.Y, 1, 1}, {f.Y - 1, 7, 1}, {t.Y + 1, 7, 1}, {f.Y, 1, 1}, {t.Y, 12, 31}} {
+					for _, sh := range shifts {
+						y := base.Y + sh
+						if y < -2147483647 || y > 2147483646 {
+							continue
+						}
+						d := base.D
+						if d > ref.DaysIn(y, base.M) {
+							d = ref.DaysIn(y, base.M)
+						}
+						probes = append(probes, YMD{y, base.M, d})
+					}
+				}
+				for shape := 1; shape <= 3; shape++ {
+					c := Case{Probes: probes, Scribble: probes[bi]}
+					if shape&1 != 0 {
+						ff := f
+						c.From = &ff
+					}
+					if shape&2 != 0 {
+						tt := t
+						c.To = &tt
+					}
+					judge(c, w)
+					w.EvalN(int64(len(probes)), int64(len(probes)))
+				}
+			}
+		})
+	})
+
 	nRand := int64(r.Pick(200000, 20000000))
 	r.Phase(fmt.Sprintf("B: %d seeded random triples over years 0000-9999", nRand), func() {
 		r.Parallel(nRand, 4096, func(w *vkit.W, lo, hi int64) {
